@@ -147,9 +147,14 @@ pub fn gen_world(prop: &str, flavor: Flavor, seed: u64, index: u64, tier: Tier) 
     if rng.below(4) == 0 {
         let (t0, sp) = specs[rng.below(specs.len() as u64) as usize].clone();
         let mut sp2 = sp.clone();
-        sp2.port = sp.port.wrapping_add(1);
-        sp2.txt.push(("v".into(), Some(b"2".to_vec())));
         let t = t0 + [100, 500, 800, 1200, 2500, 4000][rng.below(6) as usize];
+        // what changes: port and TXT, only the TXT, or only the port (chosen from the time, not from the PRNG)
+        if t0 % 3 != 1 {
+            sp2.port = sp.port.wrapping_add(1);
+        }
+        if t0 % 3 != 2 {
+            sp2.txt.push(("v".into(), Some(b"2".to_vec())));
+        }
         s.op(t, Op::Register { d: 0, svc: sp2 });
         t_end = t_end.max(t + 3000);
     }
@@ -1068,7 +1073,10 @@ impl Property for C09 {
                 // carries that registration's SRV data, not this one's)
                 let of_other_registration = |x: &Tx| -> bool {
                     let srv_here = m.srv_rec(s, 0, true);
-                    x.msg.as_ref().map(|mm| mm.answers.iter().any(|r| r.ty == wire::T_SRV && r.name.eq_ci(&s.fullname) && !r.same_data(&srv_here)) && m.svcs.iter().enumerate().any(|(k, o)| k != si && o.fullname.eq_ci(&s.fullname) && mm.answers.iter().any(|r| r.ty == wire::T_SRV && r.same_data(&m.srv_rec(o, 0, true))))).unwrap_or(false)
+                    let by_srv = x.msg.as_ref().map(|mm| mm.answers.iter().any(|r| r.ty == wire::T_SRV && r.name.eq_ci(&s.fullname) && !r.same_data(&srv_here)) && m.svcs.iter().enumerate().any(|(k, o)| k != si && o.fullname.eq_ci(&s.fullname) && mm.answers.iter().any(|r| r.ty == wire::T_SRV && r.same_data(&m.srv_rec(o, 0, true))))).unwrap_or(false);
+                    // (... or, when the re-registration kept the port, that registration's TXT)
+                    let by_txt = x.msg.as_ref().map(|mm| mm.answers.iter().any(|r| r.ty == wire::T_TXT && r.name.eq_ci(&s.fullname) && !matches!(&r.rdata, wire::RData::Txt(b) if *b == s.txt)) && m.svcs.iter().enumerate().any(|(k, o)| k != si && o.fullname.eq_ci(&s.fullname) && mm.answers.iter().any(|r| r.ty == wire::T_TXT && r.name.eq_ci(&s.fullname) && matches!(&r.rdata, wire::RData::Txt(b) if *b == o.txt)))).unwrap_or(false);
+                    by_srv || by_txt
                 };
                 let gb: Vec<&Tx> = tr.tx.iter().filter(|x| x.step == end_step && is_goodbye_of(x) && !of_other_registration(x)).collect();
                 j.judgements += 1;
